@@ -185,6 +185,51 @@ BUILDER_YANG = {
 }
 
 
+# hazards for the generator's text handling (group "hazard"): string defaults holding backslashes and
+# double quotes (the generated Go literal must denote exactly the default), posix-pattern
+# restrictions without anchors on types that have a default (the generator validates the default
+# while it writes the code; the embedded schema must still hold the pattern as written), a multi-key
+# list directly below the fake root in a module whose name sorts before the fake root's.
+HAZARD_YANG = {
+    "openconfig-extensions.yang": """module openconfig-extensions {
+  yang-version "1";
+  namespace "http://openconfig.net/yang/openconfig-ext";
+  prefix "oc-ext";
+  extension posix-pattern { argument "pattern"; }
+  extension openconfig-version { argument "semver"; }
+}
+""",
+    "a-haz.yang": """module a-haz {
+  yang-version "1.1";
+  namespace "urn:verif:a-haz";
+  prefix "ah";
+  import openconfig-extensions { prefix "oc-ext"; }
+  typedef hostname { type string { pattern '[a-z][a-z0-9]*'; oc-ext:posix-pattern '[a-z][a-z0-9]*'; } default "localhost"; }
+  typedef winpath { type string; default 'C:\\logs\\app'; }
+  container settings {
+    leaf dir { type winpath; }
+    leaf re { type string; default '^\\d+$'; }
+    leaf quote { type string; default 'say "hi" now'; }
+    leaf both { type string; default 'a\\"b'; }
+    leaf-list paths { type string; default 'x\\y'; default 'plain'; }
+    leaf un { type union { type uint8; type string; } default 'rack\\7'; }
+    leaf host { type hostname; }
+    leaf host2 { type string { oc-ext:posix-pattern '[a-z]+(\\.[a-z]+)*'; } default "a.b"; }
+    leaf domain { type string { pattern '[a-z]+'; oc-ext:posix-pattern '[a-z]+'; } }
+    leaf location { type string { pattern '[A-Z]+'; oc-ext:posix-pattern '^[A-Z]+$'; } default "LAB"; }
+    leaf banner { type union { type uint8; type string { oc-ext:posix-pattern 'motd-[a-z]+'; } } default "motd-hello"; }
+  }
+  list zone {
+    key "region area";
+    leaf region { type string; }
+    leaf area { type string; }
+    leaf note { type string; default 'n\\a'; }
+  }
+}
+""",
+}
+
+
 def camel(s):
     # yang.CamelCase for the plain names used as fake root names here
     return "".join(p[:1].upper() + p[1:] for p in re.split(r"[-_.]", s) if p)
@@ -289,6 +334,10 @@ def specs(tier, seed):
             bflags = [f for f in flags if f not in PS] + PS + [LB % (2 if i % 8 == 1 else 1)]
             out.append(mkspec(name + "b", "random", [os.path.join(d, f) for f in m["main"]], [d], COMMON + bflags,
                               features=m["features"], yang_text=m["files"], yang_dir=d, yang_seed=mseed, style=style))
+    # text-handling hazards (simple unions: the generator documents that defaults of wrapper unions are not supported)
+    hd = os.path.join(ydir, "hazard")
+    for nm, fl in (("h_haz_u", [SU]),):
+        out.append(mkspec(nm, "hazard", [os.path.join(hd, "a-haz.yang")], [hd], COMMON + fl, yang_text=dict(HAZARD_YANG), yang_dir=hd))
     # known-defect schemas
     dd = os.path.join(ydir, "defect")
     out.append(mkspec("d_enum_s", "defect", [os.path.join(dd, "d-enum.yang")], [dd], COMMON + [SU, CP, "-prefer_operational_state"],
